@@ -238,6 +238,9 @@ Definition next_world (w : world) (s : fs) (f : fstate) (e : ev) (r : option nat
 Definition fault_of (forced : option nat) (w : world) : option nat :=
   match forced with Some x => Some x | None => sched_fault (w_sched w) (w_tick w) end.
 
+(* a primitive that fails by itself: EBADF = "I/O operation on closed file", a ValueError in Python *)
+Definition exn_of_sem (errno : nat) : exn := if Nat.eqb errno EBADF then ValueError else OSErr errno.
+
 Definition step (e : ev) (forced : option nat) (w : world) : outcome unit * world :=
   let s := interfere w in
   match fault_of forced w with
@@ -246,7 +249,7 @@ Definition step (e : ev) (forced : option nat) (w : world) : outcome unit * worl
       (Exc (exn_of_fault e errno), next_world w (fst sf) (snd sf) e (Some errno))
   | None =>
       let rsf := sem (w_umask w) e s (w_file w) in
-      (match fst (fst rsf) with None => Val tt | Some errno => Exc (OSErr errno) end,
+      (match fst (fst rsf) with None => Val tt | Some errno => Exc (exn_of_sem errno) end,
        next_world w (snd (fst rsf)) (snd rsf) e (fst (fst rsf)))
   end.
 
@@ -323,13 +326,15 @@ Definition exit_ (c : cfg) (exc : bool) : M unit :=
   else catch (atomic_rename c) (fun e => rm_part_file c ;;; raise e).
 
 (* the with-block's body: writes and flushes on the part file, then maybe an exception *)
-Inductive bop := BWrite (data : bytes) (disk : N) | BFlush.
+(* BClose: the body closes the file object it was given (a misuse the saver must survive) *)
+Inductive bop := BWrite (data : bytes) (disk : N) | BFlush | BClose.
 
 Fixpoint run_body (ops : list bop) : M unit :=
   match ops with
   | [] => ret tt
   | BWrite d k :: r => prim (EWrite d k) ;;; run_body r
   | BFlush :: r => prim EFlush ;;; run_body r
+  | BClose :: r => prim EClose ;;; run_body r
   end.
 
 (* the buffering oracle is in range at every write: vl = bytes in the kernel, bl = bytes still buffered *)
@@ -340,6 +345,7 @@ Fixpoint oracle_ok (vl bl : N) (ops : list bop) : bool :=
       let all := (vl + bl + blen d)%N in
       (vl <=? k)%N && (k <=? all)%N && oracle_ok k (all - k)%N r
   | BFlush :: r => oracle_ok (vl + bl)%N 0%N r
+  | BClose :: _ => false                  (* not a well-behaved body *)
   end.
 
 Definition BODY_EXN := OtherExn 1.
@@ -360,7 +366,7 @@ Definition save (c : cfg) (ops : list bop) (raises : bool) : M unit :=
 (* Views                                                                     *)
 (* ------------------------------------------------------------------------ *)
 Definition new_content (ops : list bop) : bytes :=
-  flat_map (fun o => match o with BWrite d _ => d | BFlush => [] end) ops.
+  flat_map (fun o => match o with BWrite d _ => d | BFlush | BClose => [] end) ops.
 
 (* what a reader of [n] sees after the process was killed (kernel state survives) *)
 Definition content_kill (s : fs) (n : name) : option bytes :=
